@@ -234,7 +234,7 @@ fn gen_fn(r: &mut Rng, tiny: bool) -> (Function, Vec<&'static str>) {
     if tiny {
         o.min_blocks = 1; o.max_blocks = 2; o.max_instrs = 2;
     } else {
-        o.min_blocks = 1; o.max_blocks = 5; o.max_instrs = 3;
+        o.min_blocks = 2; o.max_blocks = 6; o.max_instrs = 3;
     }
     let mut f = gen_function(r, &o, 0x1000);
     let nb = f.blocks().len();
